@@ -21,7 +21,11 @@ from . import c16_util as U
 NF = U.NF
 INT_KINDS = {'u8': (0, 2 ** 8 - 1), 'i8': (-2 ** 7, 2 ** 7 - 1), 'u16': (0, 2 ** 16 - 1), 'i16': (-2 ** 15, 2 ** 15 - 1),
              'u32': (0, 2 ** 32 - 1), 'i32': (-2 ** 31, 2 ** 31 - 1), 'u64': (0, 2 ** 64 - 1), 'i64': (-2 ** 63, 2 ** 63 - 1),
-             'bool': (0, 1), 'e16': (-2 ** 15, 2 ** 15 - 1)}
+             'bool': (0, 1), 'e16': (-2 ** 15, 2 ** 15 - 1),
+             'st1': (0, 2 ** 8 - 1), 'st2': (-2 ** 15, 2 ** 15 - 1)}      # st1/st2: keyed structs of 1 / 2 bytes (key only)
+# keyed structs with payload members: kind -> range of the key k (ks: 8 bytes; stN: N bytes, N not a multiple of 4)
+KS_LIKE = {'ks': 'i32', 'st3': 'u8', 'st5': 'u8', 'st6': 'i16', 'st10': 'i16'}
+P_KINDS = ('ks', 'ks2', 'kt', 'kstr', 'mk')      # kinds whose payload field p can be scanned
 FLOAT_KINDS = {'f32': 4, 'f64': 8}
 OFFSET_KINDS = ('str', 'kt', 'kstr', 'mk')
 
@@ -41,6 +45,9 @@ def hx(b):
 # ---------------------------------------------------------------------------------------------------------------------
 # A test case: one vector, one sort operation, queries. Fields are described by "views": for a field name the list of keys
 # (python values), the key type ('z' ints / 'f' floats / 's' bytes) used by model lines and oracle.
+DEFAULT_FIELD = dict({'ks2': 'k64', 'kt': 'k', 'kstr': 'name', 'mk': 'c'}, **{k: 'k' for k in KS_LIKE})
+
+
 class Case:
     def __init__(self, klass, kind, sortop, elems, queries=(), full=False, shared=None):
         self.klass, self.kind, self.sortop, self.elems, self.queries, self.full = klass, kind, sortop, (None if elems is None else list(elems)), list(queries), full
@@ -54,12 +61,12 @@ class Case:
     # ---- field views
     def sort_field(self):
         if self.sortop in ('sort', 'rsort'):
-            return {'ks': 'k', 'ks2': 'k64', 'kt': 'k', 'kstr': 'name', 'mk': 'c'}.get(self.kind, '-')
-        if self.sortop.startswith('sort_by_'): return self.sortop[8:]
+            return DEFAULT_FIELD.get(self.kind, '-')
+        if self.sortop.startswith('sort_by_'): return '-' if self.kind in ('st1', 'st2') else self.sortop[8:]
         return None
 
     def default_field(self):
-        return {'ks': 'k', 'ks2': 'k64', 'kt': 'k', 'kstr': 'name', 'mk': 'c'}.get(self.kind, '-')
+        return DEFAULT_FIELD.get(self.kind, '-')
 
     def field_type(self, field):
         k = self.kind
@@ -67,7 +74,7 @@ class Case:
         if k in INT_KINDS: return 'z'
         if k in FLOAT_KINDS: return 'f' + str(FLOAT_KINDS[k])
         if k == 'str': return 's'
-        if k == 'ks': return 'z'
+        if k in KS_LIKE: return 'z'
         if k == 'ks2': return {'k8': 'z', 'kd': 'f8', 'k64': 'z', 'p': 'z'}[field]
         if k == 'kt': return 'z'
         if k == 'kstr': return {'name': 's', 'p': 'z'}[field]
@@ -78,7 +85,7 @@ class Case:
         k = self.kind; e = self.elems[self.ident(i)]
         if field == '-': field = self.default_field()
         if field == 'p': return self.ident(i)
-        if k in INT_KINDS or k in FLOAT_KINDS or k in ('str', 'ks', 'kt', 'kstr'): return e
+        if k in INT_KINDS or k in FLOAT_KINDS or k in KS_LIKE or k in ('str', 'kt', 'kstr'): return e
         if k == 'ks2': return e[{'k8': 0, 'kd': 1, 'k64': 2}[field]]
         if k == 'mk': return e[{'a': 0, 'b': 1, 's': 2, 'c': 3, 'd': 4}[field]]
 
@@ -89,7 +96,7 @@ class Case:
     def elem_tok(self, i):
         if i in self.shared: return '@%d' % self.shared[i]
         k = self.kind; e = self.elems[i]
-        if k in INT_KINDS or k in ('ks', 'kt'): return str(e)
+        if k in INT_KINDS or k in KS_LIKE or k == 'kt': return str(e)
         if k in FLOAT_KINDS: return fhex(e, FLOAT_KINDS[k])
         if k in ('str', 'kstr'): return hx(e)
         if k == 'ks2': return '%d/%s/%d' % (e[0], fhex(e[1], 8), e[2])
@@ -187,7 +194,7 @@ def gen_elems(rng, kind, n, style=None):
     if kind in INT_KINDS: return gen_values(rng, 'z', n, INT_KINDS[kind], style)
     if kind in FLOAT_KINDS: return gen_values(rng, 'f%d' % FLOAT_KINDS[kind], n, None, style)
     if kind in ('str', 'kstr'): return gen_values(rng, 's', n, None, style)
-    if kind == 'ks': return gen_values(rng, 'z', n, INT_KINDS['i32'], style)
+    if kind in KS_LIKE: return gen_values(rng, 'z', n, INT_KINDS[KS_LIKE[kind]], style)
     if kind == 'kt': return gen_values(rng, 'z', n, INT_KINDS['i64'], style)
     if kind == 'ks2':
         return list(zip(gen_values(rng, 'z', n, INT_KINDS['u8'], style), gen_values(rng, 'f8', n, None, style), gen_values(rng, 'z', n, INT_KINDS['u64'], style)))
@@ -196,8 +203,9 @@ def gen_elems(rng, kind, n, style=None):
                         gen_values(rng, 'z', n, INT_KINDS['u64'], style), gen_values(rng, 'f4', n, None, style)))
 
 
-FIELDS = {'ks': ['k'], 'ks2': ['k8', 'kd', 'k64'], 'kt': ['k'], 'kstr': ['name'], 'mk': ['a', 'b', 's', 'c', 'd']}
-RANGE_OF = {('ks', 'k'): 'i32', ('ks2', 'k8'): 'u8', ('ks2', 'k64'): 'u64', ('kt', 'k'): 'i64', ('mk', 'a'): 'u8', ('mk', 'b'): 'i16', ('mk', 'c'): 'u64'}
+FIELDS = {'ks': ['k'], 'ks2': ['k8', 'kd', 'k64'], 'kt': ['k'], 'kstr': ['name'], 'mk': ['a', 'b', 's', 'c', 'd'],
+          'st1': ['k'], 'st2': ['k'], 'st3': ['k'], 'st5': ['k'], 'st6': ['k'], 'st10': ['k']}
+RANGE_OF = {('st3', 'k'): 'u8', ('st5', 'k'): 'u8', ('st6', 'k'): 'i16', ('st10', 'k'): 'i16', ('ks', 'k'): 'i32', ('ks2', 'k8'): 'u8', ('ks2', 'k64'): 'u64', ('kt', 'k'): 'i64', ('mk', 'a'): 'u8', ('mk', 'b'): 'i16', ('mk', 'c'): 'u64'}
 
 
 def absent_key(rng, case, field):
@@ -226,6 +234,7 @@ def gen_queries(rng, case, fields, nq, after_sort_field):
         field = rng.choice(fields)
         t = case.field_type(field)
         real = case.default_field() if field == '-' else field
+        if case.kind in ('st1', 'st2') and real == 'k': real = '-'
         if n and rng.random() < 0.7: key = case.key_of(rng.randrange(n), field)
         else: key = absent_key(rng, case, field)
         mode = '-'
@@ -264,6 +273,17 @@ def run(ctx):
     H = lib.Harness(exe)
     ctx.log('harness built')
 
+    def plain_harness():
+        # the same harness without sanitizers: lines that abort under ASan/UBSan are re-run on it so that the functional
+        # consequence (unsorted / torn / wrong index) is classified as well
+        if getattr(ctx, 'c16_plain', None) is None:
+            o2 = ctx.rt_objs(san=False, srcs=['src/runtime/builder.c', 'src/runtime/emitter.c', 'src/runtime/refmap.c', 'src/runtime/verifier.c'])
+            e2 = ctx.cc([os.path.join(lib.ROOT, 'harness', 'sort_diff.c')] + o2, os.path.join(ctx.bdir, 'sort_diff_plain'), san=False,
+                        defs=['-DNDEBUG'], incs=['-I' + gdir, '-I' + os.path.join(lib.ROOT, 'harness')])
+            ctx.c16_plain = lib.Harness(e2)
+        return ctx.c16_plain
+    ctx.c16_plain_harness = plain_harness
+
     if ctx.replay_in:
         rep = json.load(open(ctx.replay_in))
         if 'harness_line' in rep and rep['harness_line'].startswith('V '):
@@ -299,6 +319,15 @@ def run(ctx):
                 absent = {'ks': 3, 'kt': 5, 'str': b'b', 'u8': 7, 'kstr': b'b', 'f64': 0x4000000000000000}[kind]
                 c.queries.append(('find', '-', mode, 0, 0, absent))
                 cases.append(c)
+    # (1b) keyed structs whose size is not a multiple of 4: whole-element identity through the redundant payload members
+    st_len = 7 if ctx.thorough else 5
+    for kind, alpha in (('st1', [0, 1, 2, 255]), ('st2', [-32768, -1, 0, 32767]), ('st3', [0, 1, 2, 255]), ('st5', [0, 1, 2, 255]),
+                        ('st6', [-32768, -1, 0, 32767]), ('st10', [-32768, -1, 0, 32767])):
+        for n in range(0, st_len + 1):
+            for seq in itertools.product(alpha, repeat=n):
+                c = Case('exhaustive_%s' % kind, kind, 'sort_by_k' if n % 2 else 'sort', list(seq))
+                c.queries = [('find', '-', '-', 0, 0, a) for a in alpha] + [('find', 'k', '-', 0, 0, 7)]
+                cases.append(c)
     # (2) all (begin, end) pairs on unsorted short vectors
     pairs_len = 6 if ctx.thorough else 5
     for kind, alpha in ([('i32', [5, -3, 5, 9]), ('str', [b'a', b'ab', b'a', b''])] if not ctx.thorough else
@@ -318,7 +347,7 @@ def run(ctx):
                 c.queries.append(('scan', '-', mode, 0, 0, key)); c.queries.append(('rscan', '-', mode, 0, 0, key))
                 cases.append(c)
     # (3) random vectors, every kind, every sort entry point
-    all_kinds = list(INT_KINDS) + list(FLOAT_KINDS) + ['str', 'ks', 'ks2', 'kt', 'kstr', 'mk']
+    all_kinds = list(INT_KINDS) + list(FLOAT_KINDS) + ['str', 'ks', 'ks2', 'kt', 'kstr', 'mk', 'st3', 'st5', 'st6', 'st10']
     lens = [0, 1, 2, 3, 4, 5, 7, 8, 9, 15, 16, 17, 31, 32, 33, 63, 64, 65, 100, 127, 128, 129, 255, 256, 257]
     reps = 150 if ctx.thorough else 14
     for kind in all_kinds:
@@ -339,7 +368,7 @@ def run(ctx):
             c = Case('random_%s' % kind, kind, sortop, elems, full=(n <= 40 and rng.random() < 0.5), shared=shared)
             sf = c.sort_field()
             if kind == 'e16' and sortop == 'rsort': sf = None      # u_e16 is not marked sorted: S_Root_sort must leave it alone
-            fields = ['-'] + FIELDS.get(kind, []) + (['p'] if kind in FIELDS else [])
+            fields = ['-'] + FIELDS.get(kind, []) + (['p'] if kind in P_KINDS else [])
             c.queries = gen_queries(rng, c, fields, 12 if n <= 300 else 6, sf)
             cases.append(c)
         cases.append(Case('absent_%s' % kind, kind, 'sort', None, queries=[]))
@@ -385,7 +414,7 @@ def case_from_line(line):
         for i, tok in enumerate(el.split(',')):
             if tok.startswith('@'):
                 shared[i] = int(tok[1:]); elems.append(None); continue
-            if kind in INT_KINDS or kind in ('ks', 'kt'): elems.append(int(tok))
+            if kind in INT_KINDS or kind in KS_LIKE or kind == 'kt': elems.append(int(tok))
             elif kind in FLOAT_KINDS: elems.append(int(tok, 16))
             elif kind in ('str', 'kstr'): elems.append(b'' if tok == '-' else bytes.fromhex(tok))
             elif kind == 'ks2':
@@ -406,6 +435,17 @@ def evaluate_vectors(ctx, H, cases):
     ctx.log('%d vector cases generated' % len(cases))
     hl = [c.hline() for c in cases]
     replies = lib.run_harness_resilient(H, hl)
+    crashed = [i for i, r in enumerate(replies) if r.startswith('CRASH')]
+    if crashed:
+        for i in crashed:
+            if 'too many crashes' not in replies[i]:
+                c = cases[i]
+                ctx.violation('crash:%s:%s' % (c.kind, c.sortop.split('_by_')[0]), 'sanitizer / assertion failure in generated sort/find/scan code: ' + replies[i][:300],
+                              {'harness_line': hl[i][:20000], 'reply': replies[i][:3000]})
+        ctx.log('%d line(s) aborted under the sanitizers: re-running them without sanitizers for the functional verdict' % len(crashed))
+        r2 = lib.run_harness_resilient(ctx.c16_plain_harness(), [hl[i] for i in crashed])
+        for i, r in zip(crashed, r2):
+            replies[i] = r if not r.startswith('CRASH') else 'CRASHED-TWICE ' + r
     ctx.log('harness done')
 
     # ---- model lines
@@ -497,8 +537,8 @@ def evaluate_vectors(ctx, H, cases):
     for ci, c in enumerate(cases):
         rep, p = replies[ci], parsed[ci]
         rdict = {'harness_line': hl[ci][:20000], 'reply': rep[:3000]}
-        if rep.startswith('CRASH'):
-            ctx.violation('crash:%s:%s' % (c.kind, c.sortop.split('_by_')[0]), 'sanitizer / assertion failure in generated sort/find/scan code: ' + rep[:300], rdict)
+        if rep.startswith('CRASHED-TWICE'):
+            ctx.violation('crash:%s:%s' % (c.kind, c.sortop.split('_by_')[0]), 'generated sort/find/scan code crashes with and without sanitizers: ' + rep[:300], rdict)
             continue
         if p is None:
             ctx.violation('harness-reply:%s' % c.kind, 'unexpected harness reply `%s`' % rep[:200], rdict)
@@ -522,6 +562,9 @@ def evaluate_vectors(ctx, H, cases):
                 if raw != p['raw_post']:
                     ctx.violation('harness-reply:%s' % c.kind, 'raw offsets in dump and reply differ', rdict)
         ids = p['ids']          # identities after the sort (values for plain scalars)
+        if 'torn' in ids:
+            ctx.violation('struct-torn:%s' % c.kind, 'after %s a struct holds members of different original elements (the swap did not move whole structs)' % c.sortop, rdict)
+            continue
         # -- permutation
         if c.kind in INT_KINDS or c.kind in FLOAT_KINDS:
             before = sorted(c.elems or [])
@@ -532,10 +575,10 @@ def evaluate_vectors(ctx, H, cases):
             ctx.violation('not-a-permutation:%s:%s' % (c.kind, c.sortop.split('_by_')[0]), 'after %s the vector is not a permutation of the original elements' % c.sortop,
                           dict(rdict, before=str(before)[:500], after=str(after)[:500]))
             continue
-        if c.kind in ('ks', 'ks2'):
+        if c.kind in KS_LIKE or c.kind == 'ks2':
             # whole structs moved: fields printed with the payload must be those of the original element
             for slot, (i, fields) in enumerate(zip(ids, p['fields'])):
-                exp = (c.elems[i],) if c.kind == 'ks' else c.elems[i]
+                exp = (c.elems[i],) if c.kind in KS_LIKE else c.elems[i]
                 if tuple(fields) != tuple(exp):
                     ctx.violation('struct-torn:%s' % c.kind, 'struct at slot %d after the sort mixes fields of different elements' % slot, rdict); break
         if c.kind in OFFSET_KINDS and n:
@@ -615,8 +658,8 @@ def parse_reply(c, rep):
         k = c.kind
         if k in INT_KINDS: p['ids'] = [int(x) for x in seq]
         elif k in FLOAT_KINDS: p['ids'] = [int(x, 16) for x in seq]
-        elif k == 'ks':
-            p['ids'] = [int(x.split(':')[1]) for x in seq]; p['fields'] = [(int(x.split(':')[0]),) for x in seq]
+        elif k in KS_LIKE:
+            p['ids'] = [int(x.split(':')[1]) if x.split(':')[1] != 'torn' else 'torn' for x in seq]; p['fields'] = [(int(x.split(':')[0]),) for x in seq]
         elif k == 'ks2':
             p['ids'] = [int(x.split(':')[1]) for x in seq]
             p['fields'] = [(int(a), int(b_, 16), int(c_)) for a, b_, c_ in (x.split(':')[0].split('/') for x in seq)]
